@@ -35,7 +35,7 @@ func stateLetter(s string) byte {
 func init() {
 	Register(&Prop{
 		ID: "C14",
-		Rule: "sc: ServeConn on a scripted connection: per-iteration scripts (silent / served / served+close / malformed / hijack / partial head) with ReduceMemoryUsage on/off and EOF or timeout at starvation; " +
+		Rule: "sc: ServeConn on a scripted connection: per-iteration scripts (silent / served / served+close / malformed / hijack / partial head) with ReduceMemoryUsage on/off, EOF or timeout at starvation, each request in its own read or all pipelined in one read; " +
 			"serve: Server.Serve over an in-memory listener with 1..3 connections (some silent, some sending requests, Concurrency 1 to force pool rejection); monitor: the hook word is in " +
 			"New(Active(Idle Active)*Idle?)?(Closed|Hijacked) and every Active is preceded by the arrival of at least one new byte; non-trivial = at least one request is sent; distinct = distinct input",
 		Parallel: true,
@@ -88,31 +88,36 @@ func init() {
 				if !strings.ContainsAny(iters, "ncehp") || (len(iters) > 0 && iters[len(iters)-1] == 's') {
 					iters += "n" // input exhausted: the next iteration gets nothing
 				}
+				// pl=1: HTTP pipelining — everything the client sends arrives in one read, so every later request is
+				// already buffered when the response before it has been written
+				pipelined := strings.Contains(string(a[0]), "pl=1")
+				prefix := []int{0} // prefix[k] = bytes of the first k requests
+				for _, ch := range chunks {
+					prefix = append(prefix, prefix[len(prefix)-1]+len(ch))
+				}
+				if pipelined && len(chunks) > 1 {
+					chunks = [][]byte{bytes.Join(chunks, nil)}
+				}
 				res := runConn(cfg, chunks)
 				var word []byte
 				note := ""
-				lastMark := -1
+				actives := 0
 				for _, e := range res.Trace.Events {
 					if e.Kind != "state" {
 						continue
 					}
 					l := stateLetter(e.S)
 					word = append(word, l)
-					if l == 'A' && e.N <= lastMark {
-						note = fmt.Sprintf("StateActive reported with %d bytes received, no more than at the previous New/Idle (%d)", e.N, lastMark)
+					if l == 'A' {
+						// the k-th StateActive needs at least one byte beyond the k-1 requests already served
+						if actives < len(prefix) && e.N <= prefix[actives] {
+							note = fmt.Sprintf("StateActive #%d reported with %d bytes received, no byte beyond the %d bytes of the requests already served", actives+1, e.N, prefix[actives])
+						}
+						actives++
 					}
-					if l == 'N' || l == 'I' {
-						lastMark = e.N
-					}
-					if l == 'N' && lastMark < 0 {
-						lastMark = 0
-					}
-				}
-				if len(word) > 0 && word[0] != 'N' {
-					// ServeConn: the first call must be StateNew; remember byte mark anyway
 				}
 				impl := string(word)
-				return &Case{Lines: []string{Line("connstates", B(iters), word)}, Impl: impl, Nontrivial: strings.ContainsAny(script, "scehp"), Tags: []string{"sc", "sc-" + impl},
+				return &Case{Lines: []string{Line("connstates", B(iters), word)}, Impl: impl, Nontrivial: strings.ContainsAny(script, "scehp"), Tags: []string{"sc", "sc-" + impl, fmt.Sprintf("pipelined=%v", pipelined)},
 					Judge: func(r []string) Verdict {
 						desc := fmt.Sprintf("ServeConn cfg=%q script=%q: hook calls %q", a[0], script, impl)
 						f := strings.Fields(r[0])
@@ -242,7 +247,11 @@ func init() {
 					sc = append(sc, 's')
 				}
 				sc = append(sc, "nncehp"[r.Intn(6)])
-				emit("sc", B(cfgs[r.Intn(len(cfgs))]), sc)
+				cfg := cfgs[r.Intn(len(cfgs))]
+				if r.Chance(35) {
+					cfg = strings.TrimPrefix(cfg+",pl=1", ",")
+				}
+				emit("sc", B(cfg), sc)
 			}
 			ns := 25
 			if tier == "thorough" {
